@@ -126,6 +126,13 @@ impl<VM: VMBinding> SFT for ImmixSpace<VM> {
         true
     }
     fn initialize_object_metadata(&self, _object: ObjectReference, _bytes: usize) {
+        // Objects allocated directly into a space that a generational plan treats as mature
+        // (e.g. the common non-moving space) must be born unlogged, otherwise the object barrier
+        // never remembers them and a nursery GC misses their references to young objects.
+        if self.common.unlog_allocated_object {
+            VM::VMObjectModel::GLOBAL_LOG_BIT_SPEC
+                .mark_as_unlogged::<VM>(_object, Ordering::SeqCst);
+        }
         #[cfg(feature = "vo_bit")]
         crate::util::metadata::vo_bit::set_vo_bit(_object);
     }
